@@ -294,14 +294,20 @@ const USER_NAMES: [&str; 6] = ["owner000", "user0001", "user0002", "user0003", "
 // denoms chosen so that concatenations collide: "uaura"+"uusd" == "uaurau"+"usd"
 // the last three are native denoms whose text equals the address of one of the cw20 tokens (equal display text,
 // different asset kind): cw-multi-test allocates contract0 = factory, contract1 = router, contract2..4 = tokens
-const DENOMS: [(&str, u8); 11] = [
+const DENOMS: [(&str, u8); 13] = [
     ("uaura", 6), ("uusd", 6), ("uaurau", 18), ("usd", 0), ("ibc/1F", 8), ("uaurauusd", 6),
     ("contract2", 6), ("contract3", 6), ("contract4", 6),
     // two token-factory denoms of one creator: a 72-byte common prefix
     ("factory/aura1qyqszqgpqyqszqgpqyqszqgpqyqszqgpqyqszqgpqyqszqgpqyqs0ewtp9/gold", 6),
     ("factory/aura1qyqszqgpqyqszqgpqyqszqgpqyqszqgpqyqszqgpqyqszqgpqyqs0ewtp9/silver", 9),
+    // denoms are case-sensitive: these two differ from "uaura" / "ibc/1F" by letter case only
+    ("UAURA", 6), ("ibc/1f", 18),
 ];
 const ND: u64 = DENOMS.len() as u64;
+/// the denom that differs from `d` by letter case only, if the world has one
+fn case_twin(d: u64) -> Option<u64> {
+    match d { 0 => Some(11), 11 => Some(0), 4 => Some(12), 12 => Some(4), _ => None }
+}
 
 impl<'a> Env<'a> {
     fn aid(&mut self, s: &str) -> u64 {
@@ -464,7 +470,16 @@ impl<'a> Env<'a> {
                     me.addr(*s), me.addr(me.factory),
                     &FacExec::MigratePair { contract: me.astr(*p), code_id: *code }, &me.coins(funds)),
             };
-            r.map_err(|e| format!("{:#}", e))
+            // the typed guard rejections are recognised by enum variant (robust against a reworded message);
+            // the rendered text is kept as well for errors that crossed a contract boundary as strings
+            r.map_err(|e| {
+                let guard = matches!(e.downcast_ref::<haloswap::error::ContractError>(),
+                    Some(haloswap::error::ContractError::MaxSpreadAssertion {}) | Some(haloswap::error::ContractError::MaxSlippageAssertion {}));
+                let txt = format!("{:#}", e);
+                if guard && !txt.contains("Max spread assertion") && !txt.contains("Max slippage assertion") {
+                    format!("Max spread assertion (variant) {txt}")
+                } else { txt }
+            })
         };
         GUARDED.store(std::env::var("HALO_DEBUG").is_err(), Ordering::SeqCst);
         let r = catch_unwind(AssertUnwindSafe(run));
@@ -907,6 +922,8 @@ impl Gen {
             2 if !c.is_empty() => { c.remove(k); }
             5 if !c.is_empty() => { c[k].1 = c[k].1 / 2; }
             6 if !c.is_empty() => { c[k].1 = c[k].1.saturating_mul(2); }
+            // the same amount under a denom that differs by letter case only (denoms are case-sensitive)
+            7 | 8 if !c.is_empty() => { if let Some(t) = case_twin(c[k].0) { c[k].0 = t; } }
             3 => { c.push((r.below(ND), 1 + r.below(1000) as u128)); }
             4 => { c.insert(0, (r.below(ND), r.below(3) as u128)); }
             _ => {}
@@ -1241,6 +1258,31 @@ impl Gen {
                 match a {
                     A::N(d) => Op::ROps { s: u, funds: vec![(d, amt)], ops, min, to: Some(p1.addr) },
                     A::T(t) => Op::TokSend { t, s: u, d: e.router, amt, hook: Hook::ROps { ops, min, to: Some(p1.addr) } },
+                }
+            }
+            "route" if r.chance(1, 12) => {
+                // a round trip a -> b -> a (through one pool, or out through one and back through another), paid to the
+                // sender itself, with minimum_receive placed between the real output and output + input: the recipient's
+                // balance of the final asset is also the balance it paid from
+                let (a, b) = if r.chance(1, 2) { (pm.a0, pm.a1) } else { (pm.a1, pm.a0) };
+                let mut ops = vec![(a, b), (b, a)];
+                if r.chance(1, 4) { ops.push((a, b)); ops.push((b, a)); }
+                let rr = e.bal(a, pm.addr);
+                let amt = (rr / (3 + r.below(100) as u128)).min(e.bal(a, u) / 2) + 1;
+                e.q_router(false, amt, &ops);
+                let quoted = self.sim_route(e, amt, &ops);
+                let min = match r.below(6) {
+                    0 => quoted,
+                    1 => quoted.map(|q| q.saturating_add(1)),
+                    2 => quoted.map(|q| q.saturating_add(amt / 2)),
+                    3 => quoted.map(|q| q.saturating_add(amt)),
+                    4 => quoted.map(|q| q.saturating_add(amt).saturating_add(1)),
+                    _ => quoted.map(|q| q.saturating_sub(1)),
+                };
+                let to = match r.below(3) { 0 => Some(u), 1 => None, _ => to };
+                match a {
+                    A::N(d) => Op::ROps { s: u, funds: vec![(d, amt)], ops, min, to },
+                    A::T(t) => Op::TokSend { t, s: u, d: e.router, amt, hook: Hook::ROps { ops, min, to } },
                 }
             }
             "route" if r.chance(1, 14) && e.pairs.len() >= 2 => {
